@@ -48,7 +48,13 @@ def r1(ctx):
                 okb = True
         ctx.inst(R, "delay:base", okb, b.span, "sampled offset is added to min_message_latency" if okb else
                  "the sampled offset is not added to the configured minimum latency")
-    ctx.floor(R, 2)
+    # the width of the window is computed without a panicking subtraction: the setters overwrite only the maximum (the minimum is
+    # inherited from the builder, which is the only place that validates max >= min), so max < min is a reachable configuration
+    subs = [t2 for bb, t2 in b.calls(re.compile(r"Duration as std::ops::Sub>::sub$")) if any(a.startswith("field:turmoil::config::Latency::") for x in t2["args"] for a in Slicer(ctx.w).atoms(b, x))]
+    ctx.inst(R, "delay:window-width-saturates", not subs, subs[0]["s"] if subs else b.span, "max - min is computed with a saturating / checked subtraction" if not subs else
+             "Link::delay computes max_message_latency - min_message_latency with the panicking `-`: after set_link_max_message_latency / set_max_message_latency "
+             "with a value below the inherited minimum every send on the link panics (`overflow when subtracting durations`) and takes the simulation down")
+    ctx.floor(R, 3)
 
 
 def r2(ctx):
